@@ -59,6 +59,7 @@ type Term struct {
 	Args []*Term
 	Hi   int
 	Lo   int
+	CL   bool // ite-tree whose leaves are all constants ("constant-leaved")
 	id   uint64
 }
 
@@ -167,6 +168,13 @@ func Or(a, b *Term) *Term {
 	if a == b {
 		return a
 	}
+	// (k1 <= x) or (k2 <= x) = min(k1,k2) <= x
+	if a.Op == OpULe && b.Op == OpULe && a.Args[1] == b.Args[1] && a.Args[0].IsConst() && b.Args[0].IsConst() {
+		if a.Args[0].C <= b.Args[0].C {
+			return a
+		}
+		return b
+	}
 	return mk(OpOr, 0, a, b)
 }
 
@@ -191,7 +199,21 @@ func Ite(c, a, b *Term) *Term {
 			return Not(c)
 		}
 	}
-	return mk(OpIte, a.W, c, a, b)
+	// ite(c, k, ite(c2, k, r)) = ite(c or c2, k, r)
+	if a.IsConst() && b.Op == OpIte && b.Args[1].IsConst() && b.Args[1].W == a.W && b.Args[1].C == a.C {
+		return Ite(Or(c, b.Args[0]), a, b.Args[2])
+	}
+	t := mk(OpIte, a.W, c, a, b)
+	t.CL = (a.IsConst() || a.CL) && (b.IsConst() || b.CL)
+	return t
+}
+
+// mapLeaves rebuilds a constant-leaved ite-tree with f applied to every leaf.
+func mapLeaves(t *Term, f func(*Term) *Term) *Term {
+	if t.IsConst() {
+		return f(t)
+	}
+	return Ite(t.Args[0], mapLeaves(t.Args[1], f), mapLeaves(t.Args[2], f))
 }
 
 func Eq(a, b *Term) *Term {
@@ -217,6 +239,12 @@ func Eq(a, b *Term) *Term {
 			}
 			return Not(a)
 		}
+	}
+	if a.CL && b.IsConst() {
+		return mapLeaves(a, func(l *Term) *Term { return Eq(l, b) })
+	}
+	if b.CL && a.IsConst() {
+		return mapLeaves(b, func(l *Term) *Term { return Eq(a, l) })
 	}
 	// zext(x) == const  -> narrow
 	if b.IsConst() && a.Op == OpZExt {
@@ -311,6 +339,12 @@ func BinBV(op Op, a, b *Term) *Term {
 			return BV(w, c)
 		}
 	}
+	if a.CL && b.IsConst() {
+		return mapLeaves(a, func(l *Term) *Term { return BinBV(op, l, b) })
+	}
+	if b.CL && a.IsConst() {
+		return mapLeaves(b, func(l *Term) *Term { return BinBV(op, a, l) })
+	}
 	switch op {
 	case OpAdd:
 		if a.IsConst() && a.C == 0 {
@@ -383,6 +417,12 @@ func CmpBV(op Op, a, b *Term) *Term {
 	if a == b {
 		return Bool(op == OpULe || op == OpSLe)
 	}
+	if a.CL && b.IsConst() {
+		return mapLeaves(a, func(l *Term) *Term { return CmpBV(op, l, b) })
+	}
+	if b.CL && a.IsConst() {
+		return mapLeaves(b, func(l *Term) *Term { return CmpBV(op, a, l) })
+	}
 	return mk(op, 0, a, b)
 }
 
@@ -410,6 +450,9 @@ func ZExt(a *Term, w int) *Term {
 	if a.IsConst() {
 		return BV(w, a.C)
 	}
+	if a.CL {
+		return mapLeaves(a, func(l *Term) *Term { return ZExt(l, w) })
+	}
 	t := mk(OpZExt, w, a)
 	return t
 }
@@ -424,6 +467,9 @@ func SExt(a *Term, w int) *Term {
 	if a.IsConst() {
 		return BV(w, uint64(a.SVal()))
 	}
+	if a.CL {
+		return mapLeaves(a, func(l *Term) *Term { return SExt(l, w) })
+	}
 	return mk(OpSExt, w, a)
 }
 
@@ -434,6 +480,9 @@ func Extract(a *Term, hi, lo int) *Term {
 	}
 	if a.IsConst() {
 		return BV(w, a.C>>uint(lo))
+	}
+	if a.CL {
+		return mapLeaves(a, func(l *Term) *Term { return Extract(l, hi, lo) })
 	}
 	if (a.Op == OpZExt || a.Op == OpSExt) && lo == 0 && w <= a.Args[0].W {
 		return Extract(a.Args[0], hi, 0)
